@@ -20,3 +20,27 @@ package ovsdb
 //@ pure
 //@ ensures c.max == nil ==> result == 1
 //@ ensures c.max != nil ==> result == *c.max
+
+//@ func NewDefaultMonitorSelect
+//@ modifies nothing
+//@ ensures result != nil && fresh(result)
+
+//@ func (MonitorSelect).Insert
+//@ pure
+//@ func (MonitorSelect).Modify
+//@ pure
+//@ func (MonitorSelect).Delete
+//@ pure
+//@ func (MonitorSelect).Initial
+//@ pure
+//@ func (RowUpdate).Insert
+//@ pure
+//@ func (RowUpdate).Modify
+//@ pure
+//@ func (RowUpdate).Delete
+//@ pure
+
+//@ func (*RowUpdate).FromRowUpdate2
+//@ requires r != nil
+//@ modifies r.Old, r.New
+//@ ensures r.Old == ru2.Old && r.New == ru2.New
